@@ -32,6 +32,7 @@ RULE += ("; round 5: frozen containers with entries that are no positions (negat
 RULE += ("; round 6: parents written in the reduced charge alphabet (+, -, 0) for the backend shuffle and swaps")
 RULE += ("; round 7: entries that are no positions also in the frozen set of the charge swap; parents of 100-300 residues with half / a quarter / all but five positions frozen")
 RULE += ("; round 8: every move on reduced-alphabet parents")
+RULE += ("; round 9: children that carry a delta-max are asked for the permutant; default-shuffle mobility check")
 EXHAUSTIVE = {"quick": False, "thorough": False}
 ASSUMPTIONS = [
     "frozen positions are 0-based indices (as the backend moves and the WL freeze-file define them)",
